@@ -224,8 +224,8 @@ class QUBOContainer:
     def export(self, filename=None, as_ising=False):
         """ Export the QUBO / Ising as a file with particular structure """
         N = self.n_vars
-        cchar = '#'
         if as_ising:
+            cchar = '#'
             Mat = self.J
             d = self.h
             constant = self.const_ising
@@ -235,6 +235,8 @@ class QUBOContainer:
             d = self.Q.diagonal()
             constant = self.const_qubo
             extension = ".qubo"
+            # comment character the QUBO loader expects (see load_tools)
+            cchar = 'c'
         contents = []
         contents.append(f"{cchar} Generated {datetime.datetime.today()}")
         contents.append(f"\n{cchar} Constant term of objective = {constant:.2f}")
